@@ -102,4 +102,13 @@ theorem tie_request_loops :
     KoordVerif.Generated.C11.requestClampsNonPositive = 2 ∧
     ctrSum Ctr.mid [⟨0, 3, 0⟩, ⟨1, 5, 0⟩, ⟨2, 7, 0⟩, ⟨0, -1, 0⟩] = 10 := by decide
 
+/-- the four candidate-list builders filter a pod by exactly the guards of the model (`beInfo?`: QoS BE, policy;
+    `prioInfo?`: active phase, policy, priority, eviction-enabled label, [query meta,] usage metric) and none of them
+    mentions the pod's deletionTimestamp or a `…Terminating…` helper: a terminating pod stays a candidate
+    (`passRaws` forgets the flag; `terminating_victim_stays_candidate`). -/
+theorem tie_list_builders_ignore_deletion_timestamp :
+    KoordVerif.Generated.C11.memBEBuilderGuards = 2 ∧ KoordVerif.Generated.C11.memPrioBuilderGuards = 6 ∧
+    KoordVerif.Generated.C11.cpuBEBuilderGuards = 2 ∧ KoordVerif.Generated.C11.cpuPrioBuilderGuards = 6 ∧
+    KoordVerif.Generated.C11.listBuildersMentionDeletionTimestamp = false := by decide
+
 end KoordVerif.C11
